@@ -45,7 +45,7 @@ def budget(tier):
 
 
 def gen_opt2(tp: Tape, n_ops_hint=8):
-    k = tp.weighted([("default", 3), ("multi", 6), ("simple", 1), ("fuse_all", 2), ("always_never", 4), ("fuse_only", 2)])
+    k = tp.weighted([("default", 3), ("multi", 6), ("simple", 3), ("fuse_all", 2), ("always_never", 4), ("fuse_only", 2)])
     opt = dict(kind=k)
     if k in ("multi", "always_never"):
         if tp.coin():
